@@ -107,7 +107,29 @@ var (
 	c20WDay  = []c20Item{{kind: 0}, {kind: 1, a: 1}, {kind: 1, a: 7}, {kind: 2, a: 1, b: 5}, {kind: 6, a: 5}, {kind: 6, a: 7}, {kind: 7, a: 1, b: 1}, {kind: 7, a: 3, b: 5}, {kind: 7, a: 7, b: 2}}
 )
 
+// simple subsets (plain numbers and ranges) for the quick tier: the L / dL / d#n / step forms of the
+// date fields need minutes of solver time per item and are explored in the thorough tier
+var (
+	c20DaySimple   = []c20Item{{kind: 1, a: 1}, {kind: 1, a: 31}, {kind: 1, a: 29}}
+	c20MonthSimple = []c20Item{{kind: 1, a: 1}, {kind: 1, a: 12}, {kind: 2, a: 2, b: 4}}
+	c20WDaySimple  = []c20Item{{kind: 1, a: 1}, {kind: 1, a: 7}, {kind: 2, a: 1, b: 5}}
+)
+
 func c20Pick(name string, set []c20Item, two bool) []c20Item {
+	if lib.VerifParam("simple", 0) == 1 {
+		switch name {
+		case "day":
+			if len(set) > 3 {
+				set = c20DaySimple
+			}
+		case "month":
+			if len(set) > 3 {
+				set = c20MonthSimple
+			}
+		case "wday":
+			set = c20WDaySimple
+		}
+	}
 	var items []c20Item
 	if k := lib.VerifParam(name+"_item", -1); k >= 0 {
 		items = []c20Item{set[k%len(set)]}
